@@ -107,6 +107,7 @@ static void rm_comp(spif_str_t p) { if (p) { free(p->s); free(p); } }
 
 void harness(void)
 {
+    libast_debug_level = nondet_uint();          /* every run-time debug level */
     spif_url_t u = malloc(sizeof(spif_const_url_t));
     spif_const_url_t before;
     spif_str_t nv = mk_comp();
